@@ -169,9 +169,11 @@ def drange(t0 = None, t1 = None, bump = None):
     elif is_period(bump):
         bump = bump.lower()
         bmp = period.search(bump).group()
-        if bump == bmp: ## single bump
-            prd = bump[-1]
-            interval = int(bump[:-1]) * dict(q = 3).get(prd ,1)
+        prd = bump[-1]
+        interval = int(bump[:-1]) * dict(q = 3).get(prd ,1) if bump == bmp else None
+        if interval == 0 and prd != 'b':
+            raise ValueError('cannot go from %s to %s in steps of %s'%(t0,t1,bump))
+        if bump == bmp and (prd == 'b' or interval > 0): ## single bump
             if (t1-t0).days * interval < 0:
                 raise ValueError('cannot go from %s to %s in steps of %s'%(t0,t1,bump))
             freq = _LY[prd]
@@ -182,7 +184,7 @@ def drange(t0 = None, t1 = None, bump = None):
                 return res            
             else:
                 return list(rrule(freq, interval = interval, dtstart = t0, until = t1))
-        else:
+        else: ## compound bumps, and single bumps going back in time (rrule does not support a negative interval)
             t = t0
             res = []
             if t1>t0: 
@@ -201,7 +203,6 @@ def drange(t0 = None, t1 = None, bump = None):
                 return res
             else:
                 return [t0]
-                            
 
 class _calendar():
     def dt_bump(self, t, bump):
